@@ -204,6 +204,20 @@ def shape_handlers(F, rep):
                     kinds.add(tc.err_kind(i["t"]))
         rep.ob("SHAPE-ACCEPT", "TotalEnum|rows", accepted == {"Unknown", "Enum"} and "_" in rows,
                "a total case is accepted on %s only" % sorted(accepted), line_of(arm))
+        # .. compared as sets of names: nothing but membership in the other set decides which variants count (a variant left out
+        # of the comparison - because of its payload type, say - may be left out of the `case` as well)
+        other_tests = []
+        for c_ in nodes(arm["body"], "MethodCall"):
+            if c_["m"] in ("filter", "filter_map", "skip_while", "take_while", "retain"):
+                for cl_ in [a_ for a_ in c_["args"] if a_.get("k") == "Closure"]:
+                    for x_ in nodes(cl_["body"]):
+                        if x_.get("k") in ("MethodCall", "Call") and (callee(x_) or "").startswith("sylt_compiler::"):
+                            other_tests.append(x_)
+        rep.ob("SHAPE-ACCEPT", "TotalEnum|variants-compared-by-name-only", not other_tests,
+               "the listed and the declared variants are compared as sets of names" if not other_tests else
+               "the comparison of listed and declared variants leaves some variants out by another test (`%s`): a `case` without `else` "
+               "that does not list such a variant is accepted, and the emitted code has no branch for it" % pp(other_tests[0])[:50],
+               line_of(other_tests[0]) if other_tests else line_of(arm))
         rep.ob("SHAPE-ACCEPT", "TotalEnum|missing+extra", kinds == {"MissingVariants", "ExtraVariants"},
                "branches naming unknown variants and enum variants without a branch are both errors (%s)" % sorted(k or "?" for k in kinds), line_of(arm))
     # ConstantIndex -> constant_index
